@@ -12,6 +12,8 @@ META = {
                    "synchronize_rcu, fork handlers), and urcu_bp_register re-checks the TLS reader pointer after blocking signals.",
     "not_decided": "per-instruction interruption semantics (that a handler at every instruction boundary leaves the state intact)",
 }
+
+META["explanation"] += " " + "Also: every mutex taken on the lazy-registration path (including the library initialiser's) is taken with all signals blocked."
 SAFE_EXTERNALS = {"syscall", "__errno_location", "poll", "abort", "__assert_fail", "llvm.lifetime.start.p0i8", "llvm.lifetime.end.p0i8"}
 
 
